@@ -13,6 +13,7 @@
    frames (Frame = i32).  [sp_hist ops] is the host's timeline: the values of frame 0, 1, 2, ...
    No bound on max_frames_behind / catchup_speed is needed for any of the statements. *)
 From GGRS Require Import Base Consts Spectator SpectatorProofs.
+From GGRS Require Import Queue QueueProofs Sync P2P Session SessionProofs SessionProgress SessionTimeline.
 Open Scope Z_scope.
 
 (* (a) the ring.  In every reachable state, for every frame f: inputs_at_frame f answers
@@ -139,3 +140,33 @@ Check C06_order : forall (n mfb cs : Z) (ops : list sp_hop),
 Check C06_no_panic : forall (n mfb cs : Z) (ops : list sp_hop),
   1 <= n -> sp_wf n ops -> sp_hlen (sp_hist ops) < 2 ^ 31 ->
   sp_hrun (sp_start n mfb cs) ops <> Panic.
+
+(* ---------------------------------------------------------------------------------------------------
+   HOST HALF (P2PSession::send_confirmed_inputs_to_spectators; model coq/P2P.v, `session` correspondence
+   level with spectator puppets).  Space: C01's (props/C01.v) with any number nspec >= 1 of spectators.
+   After ANY run inside the space, everything the host has handed to its spectator endpoints - all calls
+   concatenated ([all_spec_sends]) - is frame 0, 1, 2, ..., next_spectator_frame - 1: each frame exactly
+   once, in order, each with the inputs the host holds for it ([held_at gs f]: for every player the
+   f-th entry of its input history - for remote players the f-th input delivered, for local players the
+   registered delayed input: props/C01.v); every frame up to the last confirmed frame has been sent; and
+   no frame is sent for which some player's input is not yet held - so never a predicted value.  With
+   the spectator half above: a spectator's n-th AdvanceFrame carries the host's confirmed inputs of
+   frame n. *)
+Theorem C06_host_broadcast_is_confirmed_timeline :
+  forall (predict : Z -> Z), (forall x, predict (predict x) = predict x) -> predict 0 = 0 ->
+  forall (ops : list sop) (n w d : Z) (kinds : list pkind) (eps : list (list Z)) (nspec : nat) (p : p2p) (outs : list (pout * apires)),
+  1 <= w -> 0 <= d -> w + d + 3 <= INPUT_QUEUE_LENGTH -> 0 < n -> Z.of_nat (length kinds) = n -> players_only kinds -> (0 < nspec)%nat ->
+  srun_in predict (session_start n w false d kinds eps nspec) ops = Ok (p, outs) ->
+  exists gs, QS w d p gs /\
+    all_spec_sends outs = map (fun f => (f, held_at gs f)) (zrange_from 0 (Z.to_nat (ps_next_spec p))) /\
+    0 <= ps_next_spec p /\ s_last_confirmed (ps_sync p) + 1 <= ps_next_spec p /\
+    Forall (fun g : ghost => ps_next_spec p <= hlen (fst g)) gs.
+Proof. exact host_broadcast_is_confirmed_timeline. Qed.
+
+(* non-vacuity: one spectator; after the run of props/C01.v's demo the spectator has been sent frames 0
+   and 1 with player 1's real inputs 7, 7 (never the predictions 0, 0 the host itself simulated first) *)
+Example C06_host_demo :
+  exists p outs, srun_in (fun x => x) (session_start 2 2 false 0 [KLocal; KRemote 0] [[1]] 1)
+      [SLocal 0 1; SAdvance; SLocal 0 1; SAdvance; SRemote 1 0 7; SRemote 1 1 7; SLocal 0 2; SAdvance] = Ok (p, outs) /\
+    map (fun fs => (fst fs, map pi_val (snd fs))) (all_spec_sends outs) = [(0, [1; 7]); (1, [1; 7])].
+Proof. eexists. eexists. split; vm_compute; reflexivity. Qed.
